@@ -52,6 +52,8 @@ def tagger(name, log=None):
     def f(s):
         if log is not None:
             log.append(name)
+        if type(s) is not Val and s == "":
+            return s            # the '' a def returns to the ${f()} / <%call> that called it: nothing was written, nothing to tag
         if type(s) is Val:
             return str.__str__(s) + "?<" + name + ">"
         return "%s<%s>" % (s, name)
@@ -159,7 +161,7 @@ def install_module(log=None):
 
 def session(c, D, P, E, BF):
     """A session (Filters.cfg) with one construct."""
-    return {"D": D, "P": P, "BF": BF, "items": [{"c": c, "E": E}], "items2": []}
+    return {"D": D, "P": P, "BF": BF, "items": [{"c": c, "E": E, "s": "body"}], "items2": []}
 
 
 def item_text(it, k, variant=0):
@@ -186,7 +188,30 @@ def item_text(it, k, variant=0):
         body = '<%%def name="%s()" buffered="True" cached="True"%s>%s</%%def>${%s()}' % (fn, flt, BODY, fn)
     else:
         raise MachineryError("unknown construct %r" % c)
-    return "[" + body + "]"
+    return at_site(it.get("s", "body"), "[" + body + "]", k)
+
+
+def at_site(site, x, k):
+    """The construct's text x placed at a site of the template (Filters.tla: item.s).  None of the wrappers writes anything itself."""
+    if site == "body":
+        return x
+    if site == "topdef":
+        return '<%%def name="sd%d()">%s</%%def><%% sd%d() %%>' % (k, x, k)
+    if site == "nesteddef":
+        return '<%%def name="od%d()"><%%def name="sd%d()">%s</%%def><%% sd%d() %%></%%def><%% od%d() %%>' % (k, k, x, k, k)
+    if site == "namedblock":
+        return '<%%block name="nb%d">%s</%%block>' % (k, x)
+    if site == "blockinblock":
+        return '<%%block name="ob%d"><%%block name="nb%d">%s</%%block></%%block>' % (k, k, x)
+    if site == "anonblock":
+        return '<%%block>%s</%%block>' % x
+    if site == "callbody":
+        return '<%%def name="wd%d()"><%% caller.body() %%></%%def><%%call expr="wd%d()">%s</%%call>' % (k, k, x)
+    if site == "nsdef":
+        return '<%%namespace name="ns%d"><%%def name="sd%d()">%s</%%def></%%namespace><%% ns%d.sd%d() %%>' % (k, k, x, k, k)
+    if site in ("inherited", "include"):
+        return x                       # the surrounding templates are built by template_texts
+    raise MachineryError("unknown site %r" % site)
 
 
 def template_texts(cfg, variant=0):
@@ -201,8 +226,27 @@ def template_texts(cfg, variant=0):
     return t1, t2
 
 
+def site_templates(cfg, variant=0):
+    """(main template, {uri: other templates of the lookup}) for the two sites that need a second template: a block overridden
+    in an INHERITING template (the construct and the page tag are the child's, the parent renders it) and an INCLUDED
+    template (construct and page tag are the included template's)."""
+    site = cfg["items"][0].get("s", "body") if len(cfg["items"]) == 1 and not cfg["items2"] else "body"
+    t1, _ = template_texts(cfg, variant)
+    if site == "inherited":
+        sep = [", ", ",", " ,  "][variant % 3]
+        page = "" if cfg["P"] == ABSENT else '<%%page expression_filter="%s"/>' % sep.join(tok_src(t) for t in cfg["P"])
+        x = item_text(cfg["items"][0], 1, variant)
+        return '<%inherit file="base1"/>' + page + '<%block name="nb1">' + x + '</%block>', {"base1": '<%block name="nb1">base</%block>'}
+    if site == "include":
+        return '<%include file="inc1"/>', {"inc1": t1}
+    return t1, {}
+
+
 def template_text(cfg, variant=0):
     t1, t2 = template_texts(cfg, variant)
+    main, extras = site_templates(cfg, variant)
+    if extras:
+        return main + "".join("  ++  %s: %s" % kv for kv in sorted(extras.items()))
     return t1 if t2 is None else t1 + "  ++  " + t2
 
 
@@ -236,8 +280,15 @@ def render_config(cfg, variant=0, log=None, kind="str"):
         kw["default_filters"] = dlist
     t1, t2 = template_texts(cfg, variant)
     text = template_text(cfg, variant)
+    main, extras = site_templates(cfg, variant)
     try:
-        if (variant // 3) % 2 == 0 or log is not None:
+        if extras:
+            lk = TemplateLookup(**kw)
+            for u, t in sorted(extras.items()):
+                lk.put_string(u, t)
+            lk.put_string("t1", main)
+            tmpls = [lk.get_template("t1")]
+        elif (variant // 3) % 2 == 0 or log is not None:
             tmpls = [Template(t, **kw) for t in (t1, t2) if t is not None]
         else:
             lk = TemplateLookup(**kw)
@@ -336,6 +387,9 @@ def pipeline_signature(cfg, apps, obs):
         src.append("BF")
     mode = {"ok": "output-differs", "mutated": "configuration-object-mutated"}.get(obs[0]) or "raises-" + obs[1]
     what = cs[0] if len(cs) == 1 else ("sequence+second-template" if cfg["items2"] else "sequence")
+    sites = sorted(set(it.get("s", "body") for it in items) - {"body"})
+    if sites:
+        what += "@" + "+".join(sites)
     return "pipeline:%s:%s:%s" % (what, "+".join(src) or "none", mode)
 
 
@@ -472,7 +526,7 @@ def check(run):
     stats = {}
 
     # (i) the pipeline: all configurations
-    cfg_text = "CONSTANT Deep = %s\nSPECIFICATION MCSpec\nINVARIANT PrintTerminal PipelineOrder NameTable ConfigImmutable\nPROPERTY Monotone\nCHECK_DEADLOCK FALSE\n" % ("TRUE" if thorough else "FALSE")
+    cfg_text = "CONSTANT Deep = %s\nSPECIFICATION MCSpec\nINVARIANT PrintTerminal PipelineOrder SiteIndependent NameTable ConfigImmutable\nPROPERTY Monotone\nCHECK_DEADLOCK FALSE\n" % ("TRUE" if thorough else "FALSE")
     res = run.tlc("MC_Filters", cfg_text, name="mc-filters", coverage=True, workers=workers, timeout=1500)
     if res.violated:
         run.spec_violation(res)
